@@ -70,14 +70,15 @@ CLAIMED = {
          COMMON_NOTE + 'That NumPy copy/arithmetic/fancy-indexing allocate fresh arrays is an assumption, observed by shares_memory each run.',
          'DESIGN.md section 6 C02'),
  'C03': ('Coq proof (row sums and stationarity of the projection on executable rational matrices, under run-time certified inverses; MathComp field-generic second proof) + differential correspondence within 1e-8',
-         'proof (partial): for the executable Hummer-Szabo formula on exact rationals, whenever it returns a matrix (exact certificates K Z = Z K = I, N M = M N = I pass) rows sum to one and '
-         'pi A is stationary (positive=False); positive=True gives non-negative rows summing to one; refusal of non-ergodic micro models and labels are theorems; invertibility itself is certified per '
-         'case, not proved. Tie: implementation vs exact matrix within 1e-8, labels, refusal, plus exact row-sum/stationarity checks of the implementation output.',
+         'proof: for the executable Hummer-Szabo formula on exact rationals, whenever it returns a matrix rows sum to one and '
+         'pi A is stationary (positive=False); positive=True gives non-negative rows summing to one; refusal of non-ergodic micro models and labels are theorems; and it ALWAYS returns a matrix on the '
+         'domain of the property: for a stochastic micro matrix with an entrywise positive power and any surjective assignment the stationary vector is found and both inverses exist '
+         '(hs_total_on_ergodic_input, on Gauss-Jordan soundness/completeness, the maximum principle and the Dirichlet-form identity; Proofs/GaussFacts.v, Proofs/Totality.v). Tie: implementation vs exact matrix within 1e-8, labels, refusal, plus exact row-sum/stationarity checks of the implementation output.',
          COMMON_NOTE + 'LAPACK inv/eig trusted within 1e-8; certificates can fail (reported as model failure, never observed).',
          'DESIGN.md section 6 C03'),
  'C04': ('Coq proof (returned vector is a certified stationary probability vector; strict mode rejects) + differential correspondence within 1e-9 and exact relational checker',
          'proof (partial): whatever the model returns is a probability vector stationary for T (ergodic) resp. for the renormalised restriction to the ergodic mask, and strict mode rejects every non-ergodic '
-         'input (theorems); the stationary probability vector of a matrix with an entrywise positive power is unique (stationary_unique_thm, peq_unique: proved); for the non-ergodic branch uniqueness on the restricted matrix is certified per case. Tie: |pi_impl - pi_exact| <= 1e-9 where the exact vector is unique, the exact checker peq_ok on every accepted output, error iff.',
+         'input (theorems); the stationary probability vector of a matrix with an entrywise positive power is unique (stationary_unique_thm, peq_unique), exists and is found by the exact solver (stationary_exists_thm); for the non-ergodic branch uniqueness on the restricted matrix is certified per case. Tie: |pi_impl - pi_exact| <= 1e-9 where the exact vector is unique, the exact checker peq_ok on every accepted output, error iff.',
          COMMON_NOTE + 'One genuine defect (periodic classes) is a recorded known finding.',
          'DESIGN.md section 6 C04'),
  'C06': ('Coq proof (event automaton = reference extraction; loop erasure invariants; dictionary partition; sorted-merge intersection) + differential correspondence, exhaustive small scope',
